@@ -172,12 +172,40 @@ def run(ctx):
                 ok = s.bb not in f.reach(0, skip_edges=edges)
                 ctx.ob('C02.5', f, 'append-guarded-by-not-%s:%s' % (g, s.name), ok,
                        '%s is %s' % (s.name, 'reachable only through the false edge of the `%s` test' % g if ok else 'reachable WITHOUT passing the false edge of the `%s` test' % g), line=s.line)
+    c026(ctx)
     rot = P.fn(STORE + 'provider_cursor_rotate_v1')
     apps = E.sites_with(rot, 'TruthAppend')
     ctx.floor('C02.5', 'appending calls in provider_cursor_rotate_v1', len(apps), 1)
     for s in apps:
         # validation errors (empty actor / origin) must dominate-return before it: every `return Err` built locally precedes
         ctx.ob('C02.5', rot, 'append-not-in-loop', not rot.in_loop(s.bb), 'the cursor append is outside every loop (one frame per call)', line=s.line)
+
+
+def c026(ctx):
+    """thread ids are used verbatim as file names under continuity_streams/ (`<id>.jsonl`), and
+    `../events` names the truth file. The only creating / truncating cache entry point reachable
+    with an id that truth does not know is rebuild_best_effort; it must stay behind the
+    non-empty test of the truth replay."""
+    P = ctx.prog
+    ctx.rule('C02.6', 'a cache file named by a caller-supplied thread id is (re)created only when truth has frames for that id: every call of ContinuityStreamCache::rebuild_best_effort from the store is reachable only through the non-empty edge of `events.is_empty()` on the very events it passes (thread ids are not sanitised, so `../events` would otherwise let a read-only call truncate events.jsonl).')
+    sites = [s for s in P.callers(r'ContinuityStreamCache::rebuild_best_effort$') if s.fn.path.startswith(STORE)]
+    ctx.floor('C02.6', 'rebuild_best_effort calls from the store', len(sites), 1)
+    for s in sites:
+        f = s.fn
+        ev = f.root_local(s.args[2], through_calls=(r'::deref$', r'::as_slice$', r'::as_ref$'))
+        ok = False
+        for e in f.calls(r'alloc::vec::Vec::<T, A>::is_empty$|::is_empty$'):
+            if f.root_local(e.args[0], through_calls=(r'::deref$',)) != ev:
+                continue
+            sw = f.switch_on_call(e)
+            if sw is None:
+                continue
+            bb, ts, els, neg = sw
+            nonempty = els if neg else ts.get('0')
+            if nonempty is not None and f.edge_dom(bb, nonempty, s.bb):
+                ok = True
+        ctx.ob('C02.6', f, 'rebuild-only-for-known-thread', ok, 'rebuild_best_effort(id, events) is %s' % ('reachable only when events is non-empty' if ok else
+               'reachable with an EMPTY event list: File::create(<dir>/<id>.jsonl) runs for ids truth does not know, and the id `../events` names the truth log'), line=s.line)
 
 
 def _err_blocks(fn):
